@@ -62,6 +62,9 @@ func newCanaryRing(scratch, rootName string) (*canaryRing, error) {
 	os.Symlink(cr.AbsDir, filepath.Join(cr.Root, "link_abs"))
 	os.Symlink("..", filepath.Join(cr.Root, "link_up"))
 	os.Symlink("../"+rootName+"_evil", filepath.Join(cr.Root, "link_prefix"))
+	// an absolute target that LOOKS as if it stayed inside the root but passes
+	// through a symlink that leaves it
+	os.Symlink(filepath.Join(cr.Root, "link_out", "inner"), filepath.Join(cr.Root, "link_abs_inside"))
 	return cr, nil
 }
 
@@ -655,6 +658,7 @@ func (c06) Run(t *testing.T, scenario any, job *Job, res *Result) {
 		Ref: func(w *refproto.Wire) error {
 			swapped := map[string]bool{}
 			pr, _ = refproto.Pull(w, refproto.PullOpts{Daemon: true, Module: sc.Module, Args: args, List: lo, ServerIsSender: true, MaxData: 16 << 20,
+				PlanAll: true, // a hostile receiver also asks for the "content" of symlinks, directories, devices
 				Plan: func(idx int, e *refproto.Entry, seed int32) (bool, []byte, int, int) {
 					if sc.Swap && (sc.Module == "mod" || sc.Module == "modfs") {
 						// the list is in; swap the file for a symlink out of the module now
